@@ -395,8 +395,12 @@ class Translator:
             exc = s.exc
             if isinstance(exc, ast.Call) and isinstance(exc.func, ast.Name):
                 return 'Err "%s"' % exc.func.id
-            if isinstance(exc, ast.Name):
+            if isinstance(exc, ast.Name) and exc.id not in self.defined:
                 return 'Err "%s"' % exc.id
+            if exc is not None:
+                # raise <exception object>: objects are represented by their class name (PyLib.py_raise)
+                b, a = self.atom(exc)
+                return self.wrap(b, "py_raise %s" % a)
             self.err(s, "raise form")
         if isinstance(s, ast.Assign):
             if len(s.targets) != 1:
